@@ -220,7 +220,7 @@ def releaseLock (w : World) (o : Nat) : Except Panic World := do
   if !w.ths.isActive then return w
   let sy := w.ths.syncStore m.sync .rel
   let w := w.setObj o (.mutex { m with lock := none, sync := sy })
-  pure (w.forOthers (fun op => op.obj == o) Thread.setRunnable)
+  pure (w.forOthers (fun op => op.obj == o) Thread.wake)
 
 /-! ### rwlock (`rt/rwlock.rs`) -/
 
@@ -253,7 +253,7 @@ def releaseRead (w : World) (o : Nat) : Except Panic World := do
     let rs := rs.filter (· != w.tid)
     if rs.isEmpty then
       let w := w.setObj o (.rwlock { s with sync := sy, lock := none })
-      pure (w.forOthers (fun op => op.obj == o) Thread.setRunnable)
+      pure (w.forOthers (fun op => op.obj == o) Thread.wake)
     else pure (w.setObj o (.rwlock { s with sync := sy, lock := some (.read rs) }))
   | _ => throw .invalidRw
 
@@ -261,7 +261,7 @@ def releaseWrite (w : World) (o : Nat) : Except Panic World := do
   let s ← w.getRw o
   let sy := w.ths.syncStore s.sync .rel
   let w := w.setObj o (.rwlock { s with sync := sy, lock := none })
-  pure (w.forOthers (fun op => op.obj == o) Thread.setRunnable)
+  pure (w.forOthers (fun op => op.obj == o) Thread.wake)
 
 /-! ### park, notify -/
 
@@ -314,7 +314,7 @@ def sendEffect (w : World) (o : Nat) (v : Int) : Except Panic World := do
   let s := { s with msgCnt := s.msgCnt + 1, senderSync := sy,
                     receiverSync := s.receiverSync ++ [sy], queue := s.queue ++ [v] }
   let w := w.setObj o (.chan s)
-  if s.msgCnt == 1 then pure (w.forOthers (fun op => op.obj == o) Thread.setRunnable)
+  if s.msgCnt == 1 then pure (w.forOthers (fun op => op.obj == o) Thread.wake)
   else pure w
 
 def recvEffect (w : World) (o : Nat) : Except Panic (World × Int) := do
@@ -390,27 +390,9 @@ def tlsGet (w : World) (k : Nat) : World × Option Nat :=
     let w := { w with tlsInits := w.tlsInits.set k (w.tlsInits.getD k 0 + 1) }
     (w.modCtl t fun c => { c with locals := (k, some id) :: c.locals }, some id)
 
-/-- `Lazy::get` followed by a read of the cell inside the value; returns `id*100 + content` -/
-def lazyGet (w : World) (z : Nat) : Except Panic (World × Int) := do
-  let statics ← match w.exec.lazyStatics with
-    | none => throw .lazyShutdown
-    | some l => pure l
-  let (w, sv) ← match statics.lookup z with
-    | some sv => pure (w, sv)
-    | none => do
-      -- the initialiser: a fresh `UnsafeCell` written once
-      let id := w.lazyInits.getD z 0 + 1
-      let w := { w with lazyInits := w.lazyInits.set z id }
-      let (w, co) := w.pushObj (.cell { readAccess := w.ths.caus, writeAccess := w.ths.caus })
-      let w := w.sync
-      let cs ← w.getCell co
-      if (w.ths.caus.ahead cs.writeAccess).isSome then throw (.causality 10)
-      if (w.ths.caus.ahead cs.readAccess).isSome then throw (.causality 11)
-      let w := w.setObj co (.cell { cs with writeAccess := cs.writeAccess.join w.ths.caus, value := 40 + z })
-      -- `init_static` + `sync_store(AcqRel)`
-      let sv : LazyVal := { sync := w.ths.syncStore Sync.new .ar, inst := id, cell := co }
-      let w := { w with exec := { w.exec with lazyStatics := some ((z, sv) :: statics) } }
-      pure (w, sv)
+/-- `try_get` on a registered static followed by a read of the cell inside the value; returns
+`id*100 + content` -/
+def lazyRead (w : World) (sv : LazyVal) : Except Panic (World × Int) := do
   -- `try_get`: `sync_load(Acquire)`
   let w := w.setThs (w.ths.syncLoad sv.sync .acq)
   -- `cell.with(|p| *p)`
@@ -420,6 +402,57 @@ def lazyGet (w : World) (z : Nat) : Except Panic (World × Int) := do
   if (w.ths.caus.ahead cs.writeAccess).isSome then throw (.causality 9)
   let w := w.setObj sv.cell (.cell { cs with readAccess := cs.readAccess.join w.ths.caus })
   pure (w, (sv.inst : Int) * 100 + cs.value)
+
+/-- the registered statics (`Set::get_static` panics after `Set::drop`) -/
+def lazyStatics (w : World) : Except Panic (List (Nat × LazyVal)) :=
+  match w.exec.lazyStatics with
+  | none => throw .lazyShutdown
+  | some l => pure l
+
+/-- the part of `Lazy::get` after the initialiser's scheduling point: the rest of the initialiser (a fresh
+`UnsafeCell` written once), the second `try_get` (another thread may have registered a value meanwhile:
+ours is dropped), else `init_static` + `sync_store(AcqRel)`; then `try_get` and the read of the cell.
+`id` is the instance id the initialiser drew when it started. -/
+def lazyInitFinish (w : World) (z id : Nat) : Except Panic (World × Int) := do
+  let (w, co) := w.pushObj (.cell { readAccess := w.ths.caus, writeAccess := w.ths.caus })
+  let w := w.sync
+  let cs ← w.getCell co
+  if (w.ths.caus.ahead cs.writeAccess).isSome then throw (.causality 10)
+  if (w.ths.caus.ahead cs.readAccess).isSome then throw (.causality 11)
+  let w := w.setObj co (.cell { cs with writeAccess := cs.writeAccess.join w.ths.caus, value := 40 + z })
+  let statics ← w.lazyStatics
+  match statics.lookup z with
+  | some sv => w.lazyRead sv
+  | none =>
+    -- `init_static` + `sync_store(AcqRel)`
+    let sv : LazyVal := { sync := w.ths.syncStore Sync.new .ar, inst := id, cell := co }
+    let w := { w with exec := { w.exec with lazyStatics := some ((z, sv) :: statics) } }
+    w.lazyRead sv
+
+/-- `Lazy::get` + read of the cell, as a staged operation.  Stage 0: `try_get`; when the static is not
+registered the initialiser starts: it draws its instance id (`lazyInits[z] + 1`) and reaches its scheduling
+point (`x0.fetch_add(1, Relaxed)`: it counts the runs of the initialiser; absent when the program declares no
+atomic).  The stage
+number after the branch IS the instance id (≥ 1). -/
+def lazyStage (w : World) (c : TCtl) (z : Nat) : Except Panic World := do
+  match c.stage with
+  | 0 =>
+    let statics ← w.lazyStatics
+    match statics.lookup z with
+    | some sv =>
+      let (w, v) ← w.lazyRead sv
+      pure (w.complete (.val v))
+    | none =>
+      let id := w.lazyInits.getD z 0 + 1
+      let w := { w with lazyInits := w.lazyInits.set z id }
+      if w.cfg.nAtomics == 0 then do
+        let (w, v) ← w.lazyInitFinish z id
+        pure (w.complete (.val v))
+      else w.primStart 0 (.rmw (.add 1) .rlx .rlx) (next := id)
+  | id =>
+    let (w, _) ← w.primEffect 0 (.rmw (.add 1) .rlx .rlx)
+    let (w, v) ← w.lazyInitFinish z id
+    pure (w.complete (.val v))
 
 /-- `fence(SeqCst)` (not a branch point) -/
 def fenceSC (w : World) : World :=
@@ -915,10 +948,11 @@ def runOp (w : World) (c : TCtl) (op : Op) : Except Panic World := do
   | .tlsStat k => pure (w.complete (.val (w.tlsInits.getD k 0 * 100 + w.tlsDrops.getD k 0)))
   | .tlsObs k => pure (w.complete (.val (w.tlsObs.getD k 0)))
   | .lazyStat z =>
-    pure (w.complete (.val (if w.exec.lazyStatics.isSome then w.lazyInits.getD z 0 else 0)))
-  | .lazy z => do
-    let (w, v) ← w.lazyGet z
-    pure (w.complete (.val v))
+    -- live instances: a value that lost the initialisation race is dropped at once
+    pure (w.complete (.val (match w.exec.lazyStatics with
+      | some l => if (l.lookup z).isSome then 1 else 0
+      | none => 0)))
+  | .lazy z => w.lazyStage c z
   | .blockOn f mode => w.blockOnStage c f mode
   | .wake f => w.wakeStage c f true
   | .wakeRef f => w.wakeStage c f false
@@ -985,14 +1019,15 @@ def dropLocals (w : World) : World :=
   | 1 => w.modCtl t fun c => { c with dtorQueue := live }
   | 2 =>
     -- the destructor of `k` calls `try_with` on the other key: destroyed → 2; never initialised by this
-    -- thread → it is initialised now (and never dropped) → 1
+    -- thread → it is initialised now → 1 (the new value is destroyed by the next `drop_locals` pass, which
+    -- only spawned threads have)
     -- (only key 0's destructor probes, see the harness)
     if live.contains 0 then
       match (w.ctlOf t).locals.lookup 1 with
-      | some _ => { w with tlsObs := w.tlsObs.set 0 2 }
+      | some _ => { w with tlsObs := w.tlsObs.set 0 (w.tlsObs.getD 0 0 ||| 2) }
       | none =>
         let (w, _) := w.tlsGet 1
-        { w with tlsObs := w.tlsObs.set 0 1 }
+        { w with tlsObs := w.tlsObs.set 0 (w.tlsObs.getD 0 0 ||| 1) }
     else w
   | _ => w
 
@@ -1002,34 +1037,47 @@ def threadDone (w : World) : Except Panic World := do
   let (e, _) ← ({ w.exec with threads := ths }).schedule w.panicking
   pure { w with exec := e }
 
-/-- the tail of every thread: `drop_locals`, the destructors' loom operations, termination -/
-def finishThread (w : World) (c : TCtl) : Except Panic World := do
+/-- one pass of `rt::drop_locals` with the destructors' loom operations.  `base` is the stage at which the
+pass starts (`drop_locals` itself), `base+1` the head of the destructor loop, `base+2` the effect of a
+destructor's store.  `done` is what happens when the pass is over. -/
+def dropPass (w : World) (c : TCtl) (base : Nat) (done : World → Except Panic World) : Except Panic World := do
   let t := w.tid
-  match c.fin with
-  | 10 =>
+  if c.fin == base then
     let w := w.dropLocals
-    pure (w.modCtl t fun c => { c with fin := 11 })
-  | 11 =>
+    pure (w.modCtl t fun c => { c with fin := base + 1 })
+  else if c.fin == base + 1 then
     match c.dtorQueue with
-    | [] => (w.modCtl t fun c => { c with fin := 99 }).threadDone
+    | [] => done w
     | k :: _ =>
       -- the destructor of key `k`: `x0.store(10 + k, Relaxed)`
-      let w := w.modCtl t fun c => { c with fin := 12 }
+      let w := w.modCtl t fun c => { c with fin := base + 2 }
       w.primStart 0 (.store (10 + (k : Int)) .rlx) c.stage
-  | 12 =>
+  else
     match c.dtorQueue with
     | [] => throw (.internal 84)
     | k :: rest =>
       let (w, _) ← w.primEffect 0 (.store (10 + (k : Int)) .rlx)
-      pure (w.modCtl t fun c => { c with fin := 11, dtorQueue := rest })
-  | _ => throw (.internal 85)
+      pure (w.modCtl t fun c => { c with fin := base + 1, dtorQueue := rest })
 
-/-- what a thread does after its last DSL operation -/
+/-- the tail of every thread (`rt::thread_done`): `drop_locals`, the destructors' loom operations,
+termination -/
+def finishThread (w : World) (c : TCtl) : Except Panic World :=
+  if c.fin < 10 ∨ c.fin > 12 then throw (.internal 85)
+  else w.dropPass c 10 fun w => (w.modCtl w.tid fun c => { c with fin := 99 }).threadDone
+
+/-- what a thread does after its last DSL operation.
+
+main closure (`model.rs`): `lazy_statics.drop()` (the values are dropped outside the execution), then
+`thread_done()`.
+
+spawned thread (`thread.rs spawn_internal`, since the repair of finding F20): `rt::drop_locals()` — the
+thread-local destructors run before the thread is reported as finished — (stages 3, 4, 5), then
+`notify.notify()` (stage 0→1: its branch point, 1: its effect), then `thread_done()` (stages 10, 11, 12: a
+second `drop_locals` finds only values that were initialised during the first one). -/
 def runEpilogue (w : World) (c : TCtl) : Except Panic World := do
   let t := w.tid
   if c.fin ≥ 10 then w.finishThread c
   else if t == 0 then
-    -- main closure: `lazy_statics.drop()` (the values are dropped outside the execution), then `thread_done()`
     let w := { w with exec := { w.exec with lazyStatics := none } }
     pure (w.modCtl t fun c => { c with fin := 10 })
   else
@@ -1037,8 +1085,11 @@ def runEpilogue (w : World) (c : TCtl) : Except Panic World := do
     | none => throw (.internal 83)
     | some (_, _, n) =>
       if c.fin == 0 then
-        -- `notify.notify(location)`: branch point first
-        (w.modCtl t fun c => { c with fin := 1 }).branch n .opaque
+        -- start of the first `drop_locals` pass
+        w.dropPass { c with fin := 3 } 3 (fun w => pure w)
+      else if c.fin ≥ 3 then
+        -- when the pass is over: `notify.notify(location)`: branch point first
+        w.dropPass c 3 fun w => (w.modCtl t fun c => { c with fin := 1 }).branch n .opaque
       else do
         let w ← w.notifyEffect n
         pure (w.modCtl t fun c => { c with fin := 10 })
